@@ -8,12 +8,17 @@ pub(crate) fn stub_make_poll_channel() -> io::Result<(PollEventSource, PollEvent
   use std::os::fd::FromRawFd;
   let a = unsafe { std::net::TcpStream::from_raw_fd(4) };
   let b = unsafe { std::net::TcpStream::from_raw_fd(5) };
+  // One strong reference to the sender's stream is leaked on purpose: the real code drops
+  // StatusChannelSenders (e.g. the completion channel of wait_for_acknowledgments), and the
+  // last drop would close() the dummy descriptor — a foreign call Kani cannot model.
+  let send = Arc::new(Mutex::new(TcpStream::from_std(b)));
+  core::mem::forget(send.clone());
   Ok((
     PollEventSource {
       rec_mio_socket: Mutex::new(TcpStream::from_std(a)),
     },
     PollEventSender {
-      send_mio_socket: Arc::new(Mutex::new(TcpStream::from_std(b))),
+      send_mio_socket: send,
     },
   ))
 }
